@@ -768,6 +768,9 @@ pub fn machine_id(n: usize, w_unknown: u32) -> BoxedStrategy<usize> {
     if n == 0 {
         return unknown.boxed();
     }
+    // ids that alias a running machine once truncated to a narrower integer
+    let aliasing = (0..n, select(vec![8u32, 16, 31, 32, 48, 63])).prop_map(|(k, bits)| (1usize << bits).wrapping_add(k));
+    let unknown = prop_oneof![3 => unknown, 1 => aliasing.prop_filter("must be unknown", move |id| *id >= n)];
     if w_unknown == 0 {
         return (0..n).boxed();
     }
